@@ -20,7 +20,13 @@ Families of tasks:
          mapped source block (average / broadcast / default for atmosphere
          blocks per combination), order = target block order, source unchanged.
   data   t2data.transfer_from on identical geometries keeps every generator
-         (block, name, type, rate, enthalpy, tables) and the total generation.
+         (block, name, type, rate, enthalpy, tables) and the total generation;
+         also between geometries that differ only in their atmosphere type.
+  refine one copy of a geometry is refined in place by the REAL refine_layers();
+         mappings refined <-> original, self-mapping and incon transfer are
+         checked against the harness's own description of the refined layers.
+  (move: see task_move.  Configurations added in round 4: source initial
+  conditions stored in another order; names containing digits.)
 
 Oracles are written here and do not call the code under test: column centres
 are origin + partial sums + half a spacing, layer centres likewise, names are
@@ -56,7 +62,7 @@ class GeoInfo(object):
     pass
 
 
-def make_geo(c, mg, tag, shape, atm, conv, surf_mode, like=None, lo=None, hi=None):
+def make_geo(c, mg, tag, shape, atm, conv, surf_mode, like=None, lo=None, hi=None, chars=None):
     """Build a geometry with the real rectangular() from symbolic numbers.
     like: (GeoInfo, how) - 'same' reuses all symbols, 'shift' the spacings with a
     new origin, 'resurf' all but the surfaces."""
@@ -91,9 +97,10 @@ def make_geo(c, mg, tag, shape, atm, conv, surf_mode, like=None, lo=None, hi=Non
     else:
         dx, dy, dz = sp('dx', nx), sp('dy', ny), sp('dz', nz)
         org = [c.real('%so%s' % (tag, a)) for a in 'xyz']
-    geo = mg.mulgrid().rectangular(list(dx), list(dy), list(dz), convention=conv, atmos_type=atm, origin=list(org))
+    kw = dict(chars=chars) if chars else {}      # chars: the characters rectangular() may use in names (default a-z)
+    geo = mg.mulgrid().rectangular(list(dx), list(dy), list(dz), convention=conv, atmos_type=atm, origin=list(org), **kw)
     gi = GeoInfo()
-    gi.tag, gi.shape, gi.atm, gi.conv = tag, shape, atm, conv
+    gi.tag, gi.shape, gi.atm, gi.conv, gi.chars = tag, shape, atm, conv, chars
     gi.dx, gi.dy, gi.dz, gi.org = dx, dy, dz, org
     # oracle terms
     def partial(o, d):
@@ -208,7 +215,7 @@ def model_numbers(m, gis, extra=None):
         out[gi.tag] = dict(shape=list(gi.shape), atm=gi.atm, conv=gi.conv,
                            dx=[sym.model_value(m, E(v)) for v in gi.dx], dy=[sym.model_value(m, E(v)) for v in gi.dy],
                            dz=[sym.model_value(m, E(v)) for v in gi.dz], origin=[sym.model_value(m, E(v)) for v in gi.org],
-                           surf=[sym.model_value(m, v) for v in gi.surf])
+                           surf=[sym.model_value(m, v) for v in gi.surf], chars=getattr(gi, 'chars', None))
     if extra: out.update(extra)
     return out
 
@@ -271,18 +278,18 @@ def check_mapping(c, s, t, sgeo, tgeo, mapping, colmap, distinct, fail):
                 fail('column-mapping/not-nearest', '%r -> %r' % (cn, got))
 
 
-def task_map(sshape, tshape, sa, ta, conv, surf, rel):
+def task_map(sshape, tshape, sa, ta, conv, surf, rel, chars=None):
     ld = _load()
     mg = ld.mulgrids
     failures, samples, distinct = [], [], set()
-    name = 'map/%dx%dx%d->%dx%dx%d/atm%d->%d/conv%d/%s/%s' % (sshape + tshape + (sa, ta, conv, surf, rel))
+    name = 'map/%dx%dx%d->%dx%dx%d/atm%d->%d/conv%d/%s/%s' % (sshape + tshape + (sa, ta, conv, surf, rel)) + ('/chars=%s' % chars if chars else '')
 
     def h(c):
-        sgeo, s = make_geo(c, mg, 's', sshape, sa, conv, surf)
-        tgeo, t = make_geo(c, mg, 't', tshape, ta, conv, surf, like=(s, rel) if rel != 'free' else None)
+        sgeo, s = make_geo(c, mg, 's', sshape, sa, conv, surf, chars=chars)
+        tgeo, t = make_geo(c, mg, 't', tshape, ta, conv, surf, like=(s, rel) if rel != 'free' else None, chars=chars)
         def fail(sub, what, exc=None):
             m = c.failures[-1]['model']
-            key = 'block_mapping/%s' % sub
+            key = 'block_mapping/%s%s' % ('names-with-digits/' if chars else '', sub)
             failures.append(dict(key=key, what='%s: %s' % (name, what),
                                  replay=model_numbers(m, [s, t], dict(fn='map'))))
         if block_list_check(c, sgeo, s, distinct) == 'sat': fail('source-block-list', 'block list wrong')
@@ -395,25 +402,135 @@ def task_move(sshape, tshape, sa, ta, conv, surf, rel, kdtree):
     return report.summarize(name, res, failures, samples, extra=dict(distinct_obligations=len(distinct)))
 
 
-def task_self(shape, atm, conv, surf):
+# ---------------------------------------------------------------------------
+# refine: one side of the pair is produced by the REAL refine_layers() from the other one
+
+def refined_info(gi, geo, factor, layers):
+    """oracle description of gi after refine_layers(layers, factor): every chosen layer (1-based indices) is cut into
+    `factor` equal parts, nothing else changes (columns, surfaces, top elevation, atmosphere arrangement); the names are
+    read from the refined geometry."""
+    g = GeoInfo()
+    g.__dict__.update(gi.__dict__)
+    g.tag = gi.tag + 'r'
+    dz = []
+    for li, v in enumerate(gi.dz, 1):
+        if li in layers: dz += [SReal(E(v) / factor)] * factor
+        else: dz.append(v)
+    g.dz = dz
+    g.shape = (gi.shape[0], gi.shape[1], len(dz))
+    g.nlay = len(dz)
+    g.lbot, g.lcen, g.ltop = [E(gi.org[2])], [E(gi.org[2])], [E(gi.org[2])]
+    acc = E(gi.org[2])
+    for v in dz:
+        g.ltop.append(acc); acc = acc - E(v)
+        g.lbot.append(acc); g.lcen.append(acc + E(v) / 2)
+    g.colname = [col.name for col in geo.columnlist]
+    g.layname = [lay.name for lay in geo.layerlist]
+    if g.colname != gi.colname or len(g.layname) != g.nlay + 1 or g.layname[0] != gi.layname[0]:
+        raise sym.EngineAbort('refine_layers() did not build the expected layer structure: %r' % (g.layname,))
+    g.under = {}
+    for li in range(1, g.nlay + 1):
+        for k in range(g.ncol):
+            g.under[own_block_name(g.conv, g.layname[li], g.colname[k])] = (li, k)
+    g.atmblocks = {}
+    if g.atm == 0: g.atmblocks[own_block_name(g.conv, g.layname[0], g.atmcol)] = None
+    elif g.atm == 1:
+        for k in range(g.ncol): g.atmblocks[own_block_name(g.conv, g.layname[0], g.colname[k])] = k
+    return g
+
+
+def task_refine(shape, sa, ta, conv, factor, which, nvar=2):
+    """Two copies of one geometry with symbolic numbers and per-column surfaces; the first is refined IN PLACE by the
+    real refine_layers(layers, factor).  Then: block list of the refined geometry, refined -> original and
+    original -> refined block mappings (all map obligations, against the oracle's own layer structure), self-mapping
+    of the refined geometry, and t2incon.transfer_from refined -> original (state of the mapped block)."""
+    ld = _load()
+    mg, ti = ld.mulgrids, ld.t2incons
+    failures, samples, distinct = [], [], set()
+    name = 'refine/%dx%dx%d/atm%d->%d/conv%d/factor%d/%s' % (shape + (sa, ta, conv, factor, which))
+    nz = shape[2]
+    layers = {'all': list(range(1, nz + 1)), 'top': [1], 'bottom': [nz], 'mid': [2]}[which]
+
+    def h(c):
+        rgeo, s0 = make_geo(c, mg, 's', shape, sa, conv, 'sym')
+        ogeo, o = make_geo(c, mg, 't', shape, ta, conv, 'sym', like=(s0, 'same'))
+        stage = ['refine_layers']
+        def fail(sub, what):
+            m = c.failures[-1]['model']
+            failures.append(dict(key='refine_layers/%s/%s' % (stage[0], sub), what='%s: %s' % (name, what),
+                                 replay=model_numbers(m, [s0, o], dict(fn='refine', factor=factor, layers=layers, nvar=nvar))))
+        def raised(ex):
+            if c.refute_path('refine_layers / block_mapping / transfer_from raise no exception') == 'sat':
+                fail(type(ex).__name__, 'raised %s: %s' % (type(ex).__name__, ex))
+            return 'raised'
+        try:
+            if which == 'all': rgeo.refine_layers(factor=factor)
+            else: rgeo.refine_layers([rgeo.layerlist[li].name for li in layers], factor=factor)
+        except Exception as ex: return raised(ex)
+        r = refined_info(s0, rgeo, factor, layers)
+        if block_list_check(c, rgeo, r, distinct) == 'sat': fail('block-list', 'block list of the refined geometry is wrong')
+        stage[0] = 'refined->original'
+        try: m1, cm1 = rgeo.block_mapping(ogeo, True)
+        except Exception as ex: return raised(ex)
+        check_mapping(c, r, o, rgeo, ogeo, m1, cm1, distinct, fail)
+        stage[0] = 'original->refined'
+        try: m2, cm2 = ogeo.block_mapping(rgeo, True)
+        except Exception as ex: return raised(ex)
+        check_mapping(c, o, r, ogeo, rgeo, m2, cm2, distinct, fail)
+        stage[0] = 'self'
+        try: m3 = rgeo.block_mapping(rgeo)
+        except Exception as ex: return raised(ex)
+        bad = [nm for nm in rgeo.block_name_list if m3.get(nm) != nm]
+        if c.holds(not bad, 'self-mapping of the refined geometry is the identity') == 'sat':
+            fail('not-identity', repr([(b, m3.get(b)) for b in bad][:4]))
+        stage[0] = 'incon-refined->original'
+        src = ti.t2incon()
+        state = {}
+        for bi, nm in enumerate(list(r.atmblocks.keys()) + list(r.under.keys())):
+            state[nm] = [c.real('v_%d_%d' % (bi, j)) for j in range(nvar)]
+        for nm in rgeo.block_name_list: src[nm] = ti.t2blockincon(list(state[nm]), nm)
+        inc = ti.t2incon()
+        try: inc.transfer_from(src, rgeo, ogeo)
+        except Exception as ex: return raised(ex)
+        for nm in ogeo.block_name_list:
+            if nm in o.atmblocks: continue
+            a = m1.get(nm)
+            if a not in state or a not in rgeo.block_name_list or nm not in inc._block or len(inc[nm].variable) != nvar:
+                if c.refute_path('underground state = state of the mapped source block') == 'sat': fail('underground-state', 'block %r' % nm)
+                continue
+            f = z3.And(*[E(g) == w.e for g, w in zip(inc[nm].variable, state[a])])
+            distinct.add(('state', z3.simplify(f).hash()))
+            if c.prove(f, 'underground state = state of the mapped source block') == 'sat': fail('underground-state', 'block %r' % nm)
+        if len(samples) < 1:
+            samples.append(dict(task=name, refined_layers=r.layname, refined_to_original=dict(sorted(m1.items())[:6])))
+        return 'mapped'
+
+    res = sym.explore(h, fastctx.FastCtx(timeout_ms=60000), max_paths=6000)
+    return report.summarize(name, res, failures, samples, extra=dict(distinct_obligations=len(distinct)))
+
+
+def task_self(shape, atm, conv, surf, chars=None):
+    """chars: characters rectangular() builds names from; with a digit among them some column names end in a digit, so
+    that TOUGH2's (a3, i2) name rule alters the block names of single-digit layers ('  1' + ' 1' -> '  101')"""
     ld = _load()
     mg = ld.mulgrids
     failures, samples, distinct = [], [], set()
-    name = 'self/%dx%dx%d/atm%d/conv%d/%s' % (shape + (atm, conv, surf))
+    name = 'self/%dx%dx%d/atm%d/conv%d/%s' % (shape + (atm, conv, surf)) + ('/chars=%s' % chars if chars else '')
+    ktag = '/names-with-digits' if chars else ''
 
     def h(c):
-        geo, g = make_geo(c, mg, 's', shape, atm, conv, surf)
+        geo, g = make_geo(c, mg, 's', shape, atm, conv, surf, chars=chars)
         try:
             mapping = geo.block_mapping(geo)
         except Exception as ex:
             if c.refute_path('block_mapping raises no exception') == 'sat':
-                failures.append(dict(key='self-mapping/%s' % type(ex).__name__, what=name + ': raised %s' % ex,
+                failures.append(dict(key='self-mapping%s/%s' % (ktag, type(ex).__name__), what=name + ': raised %s: %s' % (type(ex).__name__, ex),
                                      replay=model_numbers(c.failures[-1]['model'], [g], dict(fn='self'))))
             return 'raised'
         bad = [nm for nm in geo.block_name_list if mapping.get(nm) != nm]
         if block_list_check(c, geo, g, distinct) == 'sat' or \
            c.holds(not bad, 'self-mapping is the identity on every block') == 'sat':
-            failures.append(dict(key='self-mapping/not-identity', what='%s: %r' % (name, [(b, mapping.get(b)) for b in bad][:4]),
+            failures.append(dict(key='self-mapping%s/not-identity' % ktag, what='%s: %r' % (name, [(b, mapping.get(b)) for b in bad][:4]),
                                  replay=model_numbers(c.failures[-1]['model'], [g], dict(fn='self'))))
         if len(samples) < 1: samples.append(dict(task=name, blocks=len(geo.block_name_list)))
         return 'mapped'
@@ -425,11 +542,15 @@ def task_self(shape, atm, conv, surf):
 # ---------------------------------------------------------------------------
 # incon
 
-def task_incon(sshape, tshape, sa, ta, conv, surf, rel, nvar):
+def task_incon(sshape, tshape, sa, ta, conv, surf, rel, nvar, order='geo'):
+    """order: the order in which the source's blocks are stored in the source t2incon - 'geo' (the geometry's block
+    order, atmosphere first), 'reversed', or 'rotated' (first block moved to the end).  A t2incon is addressed by block
+    name; TOUGH2 reads INCON by name, so every order is a legal source."""
     ld = _load()
     mg, ti = ld.mulgrids, ld.t2incons
     failures, samples, distinct = [], [], set()
     name = 'incon/%dx%dx%d->%dx%dx%d/atm%d->%d/conv%d/%s/%s/nvar%d' % (sshape + tshape + (sa, ta, conv, surf, rel, nvar))
+    if order != 'geo': name += '/' + order
 
     def h(c):
         sgeo, s = make_geo(c, mg, 's', sshape, sa, conv, surf)
@@ -441,14 +562,18 @@ def task_incon(sshape, tshape, sa, ta, conv, surf, rel, nvar):
         for bi, nm in enumerate(allnames):
             state[nm] = [c.real('v_%d_%d' % (bi, j)) for j in range(nvar)]
         por = {nm: c.real('por_%d' % bi) for bi, nm in enumerate(allnames)}
-        for nm in sgeo.block_name_list:
+        stored = list(sgeo.block_name_list)
+        if order == 'reversed': stored.reverse()
+        elif order == 'rotated': stored = stored[1:] + stored[:1]
+        for nm in stored:
             src[nm] = ti.t2blockincon(list(state[nm]), nm, porosity=por[nm])
         before = [(b.block, list(b.variable), b.porosity) for b in src._blocklist]
         def fail(sub, what):
             m = c.failures[-1]['model']
             vals = {nm: [sym.model_value(m, v.e) for v in vs] for nm, vs in state.items() if nm in sgeo.block_name_list}
-            failures.append(dict(key='t2incon.transfer_from/atm_src%d_tgt%d/%s' % (sa, ta, sub), what='%s: %s' % (name, what),
-                                 replay=model_numbers(m, [s, t], dict(fn='incon', nvar=nvar, state=vals))))
+            failures.append(dict(key='t2incon.transfer_from/atm_src%d_tgt%d/%s%s' % (sa, ta, sub, '' if order == 'geo' else '/source-order-' + order),
+                                 what='%s: %s' % (name, what),
+                                 replay=model_numbers(m, [s, t], dict(fn='incon', nvar=nvar, state=vals, order=order))))
         inc = ti.t2incon()
         try:
             inc.transfer_from(src, sgeo, tgeo)
@@ -512,22 +637,28 @@ def task_incon(sshape, tshape, sa, ta, conv, surf, rel, nvar):
 
 TABLEGENS = ['MASS', 'HEAT', 'COM1']
 
-def task_data(shape, atm, conv, layout, preserve, rename):
-    """layout: list of generator descriptions (where, type, table?)"""
+def task_data(shape, atm, conv, layout, preserve, rename, tatm=None):
+    """layout: list of generator descriptions (where, type, table?); tatm: atmosphere type of the target geometry
+    (default: the source's) - the two geometries are identical in everything else"""
+    if tatm is None: tatm = atm
     ld = _load()
     mg, tg, td = ld.mulgrids, ld.t2grids, ld.t2data
     failures, samples, distinct = [], [], set()
-    name = 'data/%dx%dx%d/atm%d/conv%d/%s/preserve%d/rename%d' % (shape + (atm, conv, layout, int(preserve), int(rename)))
+    name = 'data/%dx%dx%d/atm%s/conv%d/%s/preserve%d/rename%d' % (shape + (str(atm) if tatm == atm else '%d->%d' % (atm, tatm), conv, layout, int(preserve), int(rename)))
+    keybase = 't2data.transfer_from/' if tatm == atm else 't2data.transfer_from/atm_src%d_tgt%d/' % (atm, tatm)
 
     def h(c):
         sgeo, s = make_geo(c, mg, 's', shape, atm, conv, 'default', lo=F(1, 1000), hi=F(10 ** 5))
-        tgeo, t = make_geo(c, mg, 't', shape, atm, conv, 'default', like=(s, 'same'))
+        tgeo, t = make_geo(c, mg, 't', shape, tatm, conv, 'default', like=(s, 'same'))
         dat = td.t2data()
         dat.grid = tg.t2grid().fromgeo(sgeo)
         under = [nm for nm in sgeo.block_name_list if nm in s.under]
         topcat, botcat = TOPCAT[conv], BOTCAT[conv]
         gens = []
-        for gi_, nm, blk, typ, ntab, enth, follows in generator_plan(conv, layout, s.colname, s.layname):
+        for gi_, nm, blk, typ, ntab, enth, follows, where, ren in generator_plan(conv, layout, s.colname, s.layname):
+            # name after the transfer: top / bottom generators are named category + column of their block, all
+            # others keep their name unless rename_generators is set (docstring of transfer_generators_from)
+            follows = ren if (where != 'interior' or rename) else nm
             kw = dict(name=nm, block=blk, type=typ)
             if ntab:
                 kw['ltab'] = ntab
@@ -545,7 +676,7 @@ def task_data(shape, atm, conv, layout, preserve, rename):
         d2 = td.t2data()
         def fail(sub, what):
             m = c.failures[-1]['model']
-            failures.append(dict(key='t2data.transfer_from/%s' % sub, what='%s: %s' % (name, what),
+            failures.append(dict(key=keybase + sub, what='%s: %s' % (name, what),
                                  replay=model_numbers(m, [s, t], dict(fn='data', layout=layout, preserve=preserve, rename=rename,
                                                                       values={d.name(): sym.model_value(m, d()) for d in m.decls() if d.arity() == 0 and d.name().startswith('g')}))))
         try:
@@ -562,11 +693,13 @@ def task_data(shape, atm, conv, layout, preserve, rename):
         def eqnum(a, b):
             if a is None or b is None: return z3.BoolVal(a is None and b is None)
             return E(a) == E(b)
-        for (g, kw, follows), snap in zip(gens, snapshot):
-            # a generator whose name does not follow its block's column may be renamed: it is identified by its block
-            cand = [o for o in out if o.block == snap[1] and (o.name == snap[0] or not follows)]
+        for (g, kw, expname), snap in zip(gens, snapshot):
+            # expname: the name the generator must have now (its own, or category + column of its block)
+            cand = [o for o in out if o.block == snap[1] and o.name == expname]
             if len(cand) != 1:
-                if c.refute_path('generator kept (block, name)') == 'sat': fail('generator-lost', '%r:%r not in %r' % (snap[1], snap[0], [(o.block, o.name) for o in out]))
+                if c.refute_path('generator kept (block, name)') == 'sat':
+                    fail('generator-lost' if not [o for o in out if o.block == snap[1]] else 'generator-name',
+                         'generator %r in block %r should now be %r in that block; result has %r' % (snap[0], snap[1], expname, [(o.block, o.name) for o in out]))
                 continue
             o = cand[0]
             parts = [z3.BoolVal(o.type == snap[2] and o.ltab == snap[3] and o.itab == snap[4] and
@@ -624,6 +757,20 @@ def plan(tier):
         for kd in (False, True):
             T.append((task_move, dict(sshape=(2, 1, 2), tshape=(2, 1, 2), sa=1, ta=1, conv=0, surf='default', rel='same', kdtree=kd)))
         T.append((task_move, dict(sshape=(2, 1, 2), tshape=(1, 2, 2), sa=0, ta=1, conv=0, surf='default', rel='free', kdtree=True)))
+        # round 4: the real refine_layers() on one side; wells that keep / change their names
+        T.append((task_refine, dict(shape=(2, 1, 2), sa=1, ta=1, conv=0, factor=2, which='all')))
+        T.append((task_refine, dict(shape=(1, 1, 2), sa=2, ta=0, conv=2, factor=3, which='top')))
+        T.append((task_data, dict(shape=(2, 1, 3), atm=2, conv=0, layout='F', preserve=True, rename=False)))
+        T.append((task_data, dict(shape=(2, 1, 3), atm=0, conv=0, layout='F', preserve=False, rename=True)))
+        T.append((task_data, dict(shape=(2, 1, 2), atm=1, conv=2, layout='G', preserve=True, rename=False)))
+        # round 4, side observations: the model transfer for differing atmosphere types; source initial conditions stored in
+        # another order than the geometry's; column names that end in a digit
+        for sa, ta in combos:
+            if sa != ta: T.append((task_data, dict(shape=(2, 1, 2), atm=sa, tatm=ta, conv=0, layout='A', preserve=False, rename=False)))
+        for sa, ta in ((0, 0), (0, 1), (1, 0), (1, 1)):
+            T.append((task_incon, dict(sshape=(2, 1, 2), tshape=(1, 1, 2), sa=sa, ta=ta, conv=0, surf='default', rel='free', nvar=2, order='reversed')))
+        T.append((task_self, dict(shape=(3, 1, 2), atm=2, conv=0, surf='default', chars='ab1')))
+        T.append((task_map, dict(sshape=(3, 1, 2), tshape=(3, 1, 2), sa=0, ta=0, conv=0, surf='default', rel='shift', chars='ab1')))
         return T
     # thorough
     for sa, ta in combos:
@@ -661,6 +808,32 @@ def plan(tier):
         T.append((task_move, dict(sshape=(2, 1, 2), tshape=(1, 2, 2), sa=0, ta=1, conv=0, surf='default', rel='free', kdtree=kd)))
         T.append((task_move, dict(sshape=(2, 1, 3), tshape=(2, 1, 3), sa=1, ta=1, conv=0, surf='sym', rel='same', kdtree=kd)))
         T.append((task_move, dict(sshape=(3, 1, 2), tshape=(2, 1, 2), sa=1, ta=0, conv=2, surf='default', rel='free', kdtree=kd)))
+    for factor, which, shape, conv, sa, ta in ((2, 'all', (2, 1, 2), 0, 1, 1), (3, 'all', (2, 1, 2), 0, 0, 2), (2, 'top', (2, 1, 3), 1, 2, 1),
+                                              (2, 'bottom', (2, 1, 2), 2, 1, 0), (3, 'top', (1, 1, 2), 2, 2, 0), (2, 'mid', (1, 2, 3), 0, 0, 0),
+                                              (2, 'all', (1, 2, 2), 3, 2, 2)):
+        T.append((task_refine, dict(shape=shape, sa=sa, ta=ta, conv=conv, factor=factor, which=which)))
+    # round 4, side observations
+    for sa, ta in combos:
+        if sa != ta:
+            T.append((task_data, dict(shape=(2, 1, 2), atm=sa, tatm=ta, conv=0, layout='A', preserve=False, rename=False)))
+            T.append((task_data, dict(shape=(2, 1, 3), atm=sa, tatm=ta, conv=2, layout='F', preserve=True, rename=True)))
+    for sa, ta in ((0, 0), (0, 1), (1, 0), (1, 1), (0, 2), (2, 1)):
+        for order in ('reversed', 'rotated'):
+            T.append((task_incon, dict(sshape=(2, 1, 2), tshape=(1, 1, 2), sa=sa, ta=ta, conv=0, surf='default', rel='free', nvar=2, order=order)))
+    T.append((task_incon, dict(sshape=(2, 1, 2), tshape=(2, 1, 2), sa=0, ta=1, conv=2, surf='sym', rel='shift', nvar=3, order='reversed')))
+    for conv, atm in ((0, 0), (0, 1), (0, 2), (3, 0), (1, 1), (1, 2), (2, 0)):
+        T.append((task_self, dict(shape=(3, 1, 2), atm=atm, conv=conv, surf='default', chars='ab1')))
+    T.append((task_self, dict(shape=(3, 1, 2), atm=1, conv=0, surf='sym', chars='a12')))
+    for sa, ta in ((0, 0), (1, 1), (2, 0)):
+        T.append((task_map, dict(sshape=(3, 1, 2), tshape=(3, 1, 2), sa=sa, ta=ta, conv=0, surf='default', rel='shift', chars='ab1')))
+    T.append((task_map, dict(sshape=(3, 1, 2), tshape=(2, 1, 2), sa=1, ta=1, conv=1, surf='default', rel='free', chars='ab1')))
+    for layout in ('F', 'G'):
+        for preserve in (False, True):
+            for rename in (False, True):
+                T.append((task_data, dict(shape=(2, 1, 3), atm=0, conv=0, layout=layout, preserve=preserve, rename=rename)))
+        T.append((task_data, dict(shape=(2, 1, 3), atm=1, conv=1, layout=layout, preserve=True, rename=False)))
+        T.append((task_data, dict(shape=(2, 1, 3), atm=2, conv=2, layout=layout, preserve=False, rename=True)))
+        T.append((task_data, dict(shape=(2, 2, 3), atm=2, conv=0, layout=layout, preserve=True, rename=False)))
     for layout in ('D', 'E'):
         for preserve in (False, True):
             T.append((task_data, dict(shape=(2, 1, 2), atm=0, conv=0, layout=layout, preserve=preserve, rename=False)))
@@ -681,8 +854,11 @@ def plan(tier):
 def run(tier, seed, rep):
     _load()
     tasks = plan(tier)
+    import os
+    only = os.environ.get('C19_ONLY')          # development aid: run the tasks of one family only (never exits 0)
+    if only: tasks = [t for t in tasks if only in t[0].__name__ + repr(sorted(t[1].items()))]
     # the few long tasks first, so that they do not end up at the tail of the pool
-    heavy = lambda t: 0 if t[0] is task_move or (t[0] is task_data and t[1]['shape'][0] * t[1]['shape'][1] >= 3) or \
+    heavy = lambda t: 0 if t[0] is task_move or (t[0] is task_refine and t[1]['factor'] * t[1]['shape'][0] * t[1]['shape'][1] >= 4) or (t[0] is task_data and t[1]['shape'][0] * t[1]['shape'][1] >= 3) or \
         (t[1].get('sshape', (0, 0, 0))[0] * t[1].get('sshape', (0, 0, 0))[1] >= 6) or \
         (t[0] is task_self and t[1]['surf'] == 'sym') else 1
     tasks.sort(key=heavy)
@@ -692,7 +868,7 @@ def run(tier, seed, rep):
     results = report.run_tasks(tasks)
     rep.add_results(results)
     for r in results:
-        if not r.get('error') and not any(k in r.get('outcomes', {}) for k in ('mapped', 'checked')):
+        if not r.get('error') and not r.get('failures') and not any(k in r.get('outcomes', {}) for k in ('mapped', 'checked')):
             rep.harness_error('%s: no path reached its obligations (vacuous): %r' % (r['name'], r.get('outcomes')))
     fams = {}
     for f, kw in tasks: fams[f.__name__] = fams.get(f.__name__, 0) + 1
@@ -710,13 +886,26 @@ def run(tier, seed, rep):
                    '(top/bottom/interior, MASS/HEAT/COM1, constant and tabulated rates, enthalpy tables), preserve_totals and rename on/off']
     rep.bounds += ['move family: block_mapping, sourcegeo.translate(symbolic shift), block_mapping again, obligations on the CURRENT centres; '
                    'run on the fallback branch and on the scipy branch of column_mapping against a contract model of cKDTree']
+    rep.bounds += ['refine family (round 4): one copy of a geometry (symbolic spacings, origin, per-column surfaces) is refined in place by the REAL '
+                   'refine_layers (all layers / top / bottom / one interior layer, factor 2 or 3); block list of the refined geometry, '
+                   'refined -> original and original -> refined mappings, self-mapping of the refined geometry and t2incon.transfer_from '
+                   'refined -> original are checked against the harness\'s own description of the refined layer structure',
+                   't2data.transfer_from also between geometries that differ ONLY in their atmosphere type (all 6 unequal combinations); '
+                   'layouts F/G: wells whose names are not derived from a column keep their name unless rename_generators is set and are '
+                   'then named category + column of their block (exact names are required for every generator)',
+                   't2incon.transfer_from with the source blocks stored in the geometry\'s order, reversed, or rotated by one',
+                   'names: rectangular(chars=...) with a digit among the characters (column / layer names ending in a digit, block names '
+                   'altered by the (a3, i2) rule) for self-mapping and shifted pairs, conventions 0-3']
     rep.assumptions += ['k-d tree contract (move family, kdtree=True only): cKDTree(points) copies the points; query(x) returns the index of a point at '
                         'minimal squared Euclidean distance among them (first on ties); counterexamples from this branch are replayed with the real scipy',
                         'layouts D/E: a top/bottom generator belongs to the column of its BLOCK; when its name carries another column (or no column) '
-                        'the code may rename it, so it is matched by block, type and rates only']
+                        'it is renamed to category + that column (since round 4 this exact name is required)']
     rep.outside += ['the real scipy k-d tree implementation (its contract is modelled in the move family; all other families run the fallback branch)', 'shipped / irregular geometries as inputs',
                     'pairs with more than 6 freely placed columns per geometry (path explosion: 3x2 on 3x2 free exceeds the budget)',
-                    't2data.transfer_from between different geometries, the incon-file branch of t2data.transfer_from, rock-type transfer',
+                    't2data.transfer_from between geometries that differ in more than the atmosphere type (also: different naming conventions, '
+                    'source grids whose block volumes differ from the geometry\'s), the incon-file branch of t2data.transfer_from, rock-type transfer',
+                    'column refinement by the real refine() (refined pairs in x are built by rectangular() from cut spacings)',
+                    'independence of the transferred states from the source AFTER the transfer (shared variable lists), the length of the default atmosphere state',
                     'IEEE rounding (exact real arithmetic)', 'ties in nearest column/layer: any nearest one is accepted']
     rep.assumptions += ['every column has at least one layer (surface above the bottom of the lowest layer)',
                         'stub: norm() kept as its square, norms compared through squares (vx/snorm.py); scipy.spatial unimportable',
@@ -724,11 +913,13 @@ def run(tier, seed, rep):
                         'names rebuilt from the convention rule in harness/c19_common.py',
                         'atmosphere blocks: source type 0 -> the single source block; types 1 & 1 -> block over the nearest column; '
                         'otherwise no image is required (coordinator decision, matches fix 37ed9e4)',
-                        'generator names follow their column (top/bottom generators are named column + category) - well-formed input']
+                        'a top / bottom generator is named category + column of its block after the transfer; every other generator keeps its name '
+                        'unless rename_generators is set (docstrings of transfer_from / transfer_generators_from)']
     rep.functions.update(['mulgrids.py:mulgrid.column_mapping', 'mulgrids.py:mulgrid.layer_mapping', 'mulgrids.py:mulgrid.block_mapping',
-                          'mulgrids.py:mulgrid.column_surface_layer', 't2incons.py:t2incon.transfer_from', 't2data.py:t2data.transfer_from',
+                          'mulgrids.py:mulgrid.column_surface_layer', 'mulgrids.py:mulgrid.refine_layers', 't2incons.py:t2incon.transfer_from', 't2data.py:t2data.transfer_from',
                           't2data.py:t2data.transfer_generators_from', 't2data.py:t2data.transfer_rocktypes_from'])
     rep.trusted += ['oracle formulas in harness/C19.py, naming rule in harness/c19_common.py']
+    if only: rep.harness_error('C19_ONLY=%r: partial plan, development run only' % only)
     rep.process_failures()
     return rep.finish(rule='one obligation per (shape pair, atmosphere combination, convention, path, target block): '
                            'pc AND NOT(oracle relation) must be unsat; distinct = distinct formulas by z3 AST hash per task')
